@@ -356,8 +356,8 @@ class Facts:
 
     def normalise_renames(self):
         """Rule tables name functions as they are called on the reference tree. A function that
-        was merely *renamed* (same module / impl, same signature and callees) is analysed under
-        its reference name, so that a rename is not reported as a missing anchor. Functions that
+        was merely *renamed* (same module / impl) or *moved* under its old name (same signature and
+        callees) is analysed under its reference name, so that a rename is not reported as a missing anchor. Functions that
         have no counterpart stay missing (the rules then fail closed)."""
         import re
 
@@ -376,8 +376,9 @@ class Facts:
             new = [p for p in cur if p not in ref]
             fps = {}
             for old in missing:
-                parent = old.rsplit("::", 1)[0]
-                cands = [n for n in new if n.rsplit("::", 1)[0] == parent and n not in found]
+                parent, leaf = old.rsplit("::", 1) if "::" in old else ("", old)
+                # renamed in place (same module / impl), or moved under the same name
+                cands = [n for n in new if n not in found and (n.rsplit("::", 1)[0] == parent or n.rsplit("::", 1)[-1] == leaf)]
                 scored = []
                 for n in cands:
                     if n not in fps:
